@@ -531,7 +531,15 @@ SIGNATURES = {
 
 
 def is_known(case):
-    return any(p(case, {}) for p in SIGNATURES.values())
+    """Matches the signature of an OPEN known finding (fixed entries suppress nothing)."""
+    for k in fw.load_known():
+        if k.get("property") != PROP or not str(k.get("status", "")).startswith("open"):
+            continue
+        sig = k.get("signature") or {}
+        pred = SIGNATURES.get(sig.get("kind"))
+        if pred and pred(case, sig.get("params") or {}):
+            return True
+    return False
 
 
 # ---------------------------------------------------------------------------------------------
